@@ -41,6 +41,24 @@ directory states). Regenerated fact: Gen/PkgNameRules.lean (go/extract/pkgnameru
 NameForDir's four returns yields, SanitizePackageName's replaced class, repair guard and repair, and what each
 section's Check() assigns; sanitizePkg_valid / nameForDir_valid_when_derived / sectionPackage_valid
 (Props/C17Pkg.lean) prove that the derived name is a package name for EVERY directory name and state.
+
+Where the schema files live (added for the miss C17-change7): 17 location classes relative to the exec output directory
+(inside, nested, hidden, siblings whose names START WITH the exec directory's name, shorter sibling, parent, a file in
+the parent named like the directory, cousin) x both exec layouts x depth of the exec directory x how gqlgen.yml names
+the files ("schema location" projects c17s*, go/harness/c17/schemaloc.go, corpus/C17/schemalocs.txt; the layout
+projects c17l* carry extra schema files at rotating classes). The `//go:embed` patterns and the `sources` table of the
+generated executor are compared per schema file with Model/EmbedPath.lean; Spec: no pattern leaves the package.
+Regenerated fact: Gen/EmbedRule.lean (go/extract/embedrule.go, go/ast) = the `embeddable` decision of codegen.BuildData;
+embedded_only_below_output_dir / embedded_pattern_valid (Props/C17Embed.lean) hold for ALL clean absolute paths.
+
+Input objects with field resolvers (added for the miss C17-change8): `@goField(forceResolver: true)` / `models: X: fields:
+f: resolver: true` on INPUT fields - input name class x mark x field type x directive, in both exec layouts and both
+template flavours, resolver layouts none / single / follow-schema / inside the exec package ("input resolver" projects
+c17i*, go/harness/c17/inputres.go, corpus/C17/inputres.txt); the random grammar marks input fields too. Regenerated
+fact: Gen/ExecLayoutTwins.lean (go/extract/execlayouttwins.go, text/template/parse) = the single-file blocks of
+generated!.gotpl, root_.gotpl, the ranges of `type ResolverRoot interface` per layout, the resolver interface headers,
+the templates that call `ec.resolvers`; follow_root_is_single_file_twin / resolver_calls_declared /
+resolver_root_entries_name_declared_interfaces (Props/C17Root.lean).
 """
 import json
 import os
@@ -117,6 +135,8 @@ def classify(proj_dir, rc, err):
     """-> (class, shape dict, first error line)"""
     yml = read(os.path.join(proj_dir, "gqlgen.yml"))
     schema = "".join(read(os.path.join(proj_dir, f)) for f in sorted(os.listdir(proj_dir)) if f.endswith(".graphql"))
+    if os.path.exists(os.path.join(proj_dir, "schemalocs.tsv")):
+        schema = "".join(v for k, v in sorted(project_tree(proj_dir).items()) if k.endswith((".graphql", ".graphqls")))
     lines = first_errors(err)
     head = next((l for l in lines if not l.startswith("GENERATE-ERROR: validation failed") and not l.startswith("gofmt failed")), lines[0] if lines else "")
     msg = "\n".join(lines[:40])
@@ -162,6 +182,17 @@ def classify(proj_dir, rc, err):
         shape.update({"class": "function-pair-over-pointer-to-slice", "binds_function_pair_over_pointer_to_slice": True})
         shape.pop("bound_go_types", None)
         return shape, head
+    m = re.search(r"pattern (\S+): invalid pattern syntax", msg)
+    if m and rc in (3, 6):
+        shape.update({"class": "embed-pattern-leaves-the-package", "pattern": m.group(1),
+                      "pattern_has_dotdot_element": ".." in m.group(1).split("/")})
+        return shape, next((l for l in lines if "invalid pattern syntax" in l), head)
+    m = re.search(r"ec\.resolvers\.(\w+) undefined \(type ResolverRoot has no field or method", msg)
+    if m and rc in (3, 6):
+        is_input = bool(re.search(r"^(extend )?input %s\b" % re.escape(m.group(1)), schema, re.M | re.I))
+        shape.update({"class": "resolver-root-lacks-a-called-resolver", "type_is_input_object": is_input,
+                      "exec_layout": "follow-schema" if re.search(r"^exec:\n(  [^\n]*\n)*?  layout: follow-schema", yml, re.M) else "single-file"})
+        return shape, next((l for l in lines if "ec.resolvers." in l and "undefined" in l), head)
     norm = re.sub(r"[\w./-]*/([\w.-]+\.go):\d+:\d+", r"\1", head)
     norm = re.sub(r"c17[rd]\w+", "P", norm)
     shape.update({"class": "other", "message": norm[:200]})
@@ -169,6 +200,9 @@ def classify(proj_dir, rc, err):
 
 
 def run(ctx):
+    import time
+    t0 = time.time()
+    timings = ctx.cov.setdefault("timings_s", {})
     ctx.assumptions += [
         "PARTIAL: 'generation succeeds and the generated packages type-check for all schemas x configurations' is NOT a theorem (Go's type checker, text/template, go/packages and x/tools/imports are outside the model); it is sampled by the generate-and-build sweep of this run",
         "the naming model covers ASCII names (GraphQL names are ASCII); unicode.IsLower/IsUpper/IsDigit/IsSpace, strings.ToUpper/ToLower are modelled on that range and tied by the differential run",
@@ -182,10 +216,12 @@ def run(ctx):
     ctx.assumptions += [
         "derived package names (Model/PkgName.lean): the file system is an explicit input of the model (absent / entries with the package clause of each Go file); filepath.Abs / os.ReadDir / go/parser and Go's regexp class \\W are modelled, tied by -mode pkgnames on really created directories and by the package clauses of the generated layout projects",
     ]
-    ok_extract = ctx.extract("Keywords", "TypeRefRules", "FuncSyntaxArms", "PkgNameRules")
-    proved = ok_extract and ctx.prove(props=["GqlgenVerif.Props.C17", "GqlgenVerif.Props.C17Pkg"])
+    ok_extract = ctx.extract("Keywords", "TypeRefRules", "FuncSyntaxArms", "PkgNameRules", "EmbedRule", "ExecLayoutTwins")
+    proved = ok_extract and ctx.prove(props=["GqlgenVerif.Props.C17", "GqlgenVerif.Props.C17Pkg", "GqlgenVerif.Props.C17Embed", "GqlgenVerif.Props.C17Root"])
     if ok_extract and not proved:
         ctx.cov["proof_failure"] = ctx.proof_failure
+    timings["extract_and_prove"] = round(time.time() - t0, 1)
+    t0 = time.time()
 
     # ------------------------------------------------------------ names: implementation vs model
     rc, so, se = ctx.harness("c17", ["-mode", "names", "-tier", ctx.tier, "-seed", ctx.seed])
@@ -311,8 +347,12 @@ def run(ctx):
     # ------------------------------------------------------------ derived package names: real Check() vs model
     pkg_rows = run_pkgnames(ctx, have_model, branch, nontriv)
 
+    timings["names_typerefs_pkgnames"] = round(time.time() - t0, 1)
+    t0 = time.time()
     # ------------------------------------------------------------ sweep: real generation of random + directed projects
     sweep = run_sweep(ctx, have_model, branch, nontriv)
+    timings["sweep"] = round(time.time() - t0, 1)
+    timings.update(sweep.pop("timings", {}))
     failed_inputs = sweep.pop("failed_inputs")
 
     # ------------------------------------------------------------ proof failure: search for a failing input
@@ -349,6 +389,66 @@ def run(ctx):
                         rep["replay"] = txt
                         ctx.violation(rep, no_failing_input=True)
                     found = True
+            # the regenerated exec-layout twins: where root_.gotpl leaves the single-file blocks of generated!.gotpl, and
+            # which resolver a layout's ResolverRoot does not declare although the executor calls it
+            tw = ctx.driver("c17", ["twin"])[0]
+            rds = ctx.driver("c17", ["rootdecl %s Query:1,Item:0 Filter:1,Plain:0" % l for l in ("single-file", "follow-schema")])
+            for layout, rd in zip(("single-file", "follow-schema"), rds):
+                f = dict(x.split("=", 1) for x in rd.split(" ") if "=" in x)
+                if f.get("missing", "-") == "-":
+                    continue
+                fail = next((x for x in failed_inputs if x.get("class") == "resolver-root-lacks-a-called-resolver" and x["follow_schema"] == (layout == "follow-schema")), None)
+                rep = {"kind": "proof", "failing": ctx.proof_failure, "exec_layout": layout, "resolver_root_declares": f.get("declared"), "executor_calls": f.get("called"),
+                       "shape": {"stage": "exec-layout-twins", "class": "resolver-root-lacks-a-called-resolver", "exec_layout": layout}}
+                txt = "exec layout %s, schema with `input Filter` carrying a field resolver (`@goField(forceResolver: true)`): the regenerated `type ResolverRoot interface` of %s declares %s, the executor calls ec.resolvers.<T>() for %s - `%s()` is missing (theorem resolver_calls_declared over Gen/ExecLayoutTwins.lean)" % (
+                    layout, "codegen/root_.gotpl" if layout == "follow-schema" else "codegen/generated!.gotpl", f.get("declared"), f.get("called"), f.get("missing"))
+                if fail:
+                    rep["input"] = fail["input"]
+                    rep["replay"] = txt + "; failing input: project %s (go/genout/c17/%s, files in `input`): %s" % (fail["project"], fail["project"], fail["error"][:300])
+                    ctx.violation(rep)
+                else:
+                    rep["replay"] = txt
+                    ctx.violation(rep, no_failing_input=True)
+                found = True
+            if tw != "ok" and not found:
+                parts = (tw.split(" @@ ") + [""] * 5)[:5]
+                ctx.violation({"kind": "proof", "failing": ctx.proof_failure, "token_index": parts[0], "single_file_blocks_have": parts[1], "root_template_has": parts[2],
+                               "shape": {"stage": "exec-layout-twins", "class": "root-template-differs-from-single-file-blocks"},
+                               "replay": "codegen/root_.gotpl (exec layout follow-schema) is no longer the twin of the single-file blocks of codegen/generated!.gotpl: at token %s the single-file blocks have `%s` (… %s …), root_.gotpl has `%s` (… %s …) (theorem follow_root_is_single_file_twin)" % (
+                                   parts[0], parts[1], parts[3], parts[2], parts[4])}, no_failing_input=True)
+                found = True
+            # the regenerated embeddable decision of BuildData on a grid of schema locations around an exec directory
+            grid = []
+            for ex in ("/w/p/graph", "/w/p/internal/graph", "/w/p"):
+                par, base = os.path.split(ex)
+                for cls, src in (("in", ex + "/in.graphqls"), ("sub", ex + "/schema/sub.graphqls"), ("deep", ex + "/a/b/deep.graphqls"),
+                                 ("dotdot", ex + "/..hidden/x.graphqls"), ("sibpre", par + "/" + base + "ql/x.graphqls"), ("sibhyp", par + "/" + base + "-schema/x.graphqls"),
+                                 ("sibdot", par + "/" + base + ".d/x.graphqls"), ("sibund", par + "/" + base + "_schema/x.graphqls"), ("sibshort", par + "/" + base[:-1] + "/x.graphqls"),
+                                 ("sib", par + "/schemas/x.graphqls"), ("parent", par + "/parent.graphqls"), ("parentpre", par + "/" + base + ".graphqls"),
+                                 ("parentql", par + "/" + base + "ql.graphqls"), ("root", "/w/root.graphqls")):
+                    grid.append((ex, cls, src))
+            gouts = ctx.driver("c17", ["embed %s %s 0" % (ex.encode().hex(), src.encode().hex()) for ex, cls, src in grid])
+            impl_fail = sweep.get("schema_locations", {}).get("failing", [])
+            seen_cls = set()
+            for (ex, cls, src), go in zip(grid, gouts):
+                f = dict(x.split("=", 1) for x in go.split(" ") if "=" in x)
+                if not (f.get("emb") == "1" and f.get("valid") == "0") or cls in seen_cls or len(seen_cls) >= 3:
+                    continue
+                seen_cls.add(cls)
+                same = next((x for x in impl_fail if x["class"] == cls), None) or (impl_fail[0] if impl_fail else None)
+                fail = next((x for x in failed_inputs if same and x["project"] == same["project"]), None)
+                rep = {"kind": "proof", "failing": ctx.proof_failure, "exec_dir": ex, "schema_file": src, "relative_path": unhex(f.get("rel", "-")),
+                       "shape": {"stage": "embed", "class": "embeds-a-file-outside-the-exec-directory", "schema_location": [cls]}}
+                txt = "exec output directory %s, schema file %s (location class %s): the regenerated decision of codegen.BuildData marks it embeddable, the executor would say `//go:embed \"%s\"` - not a valid pattern, the file is not below the exec directory (theorems embedded_only_below_output_dir / embedded_pattern_valid over Gen/EmbedRule.lean)" % (
+                    ex, src, cls, unhex(f.get("rel", "-")))
+                if same:
+                    rep["implementation"] = same
+                    if fail:
+                        rep["input"] = fail["input"]
+                    txt += "; the real generator does the same: project %s (go/genout/c17/%s%s) embeds `%s`" % (same["project"], same["project"], ", files in `input`" if fail else "", same["pattern"])
+                rep["replay"] = txt
+                ctx.violation(rep, no_failing_input=not same)
+                found = True
             # the regenerated NameForDir / SanitizePackageName: a directory name x state for which the MODEL over the
             # regenerated definitions derives something that cannot stand in a package clause
             derived = [r for r in pkg_rows if not state_has_clause(r[4])]
@@ -517,7 +617,9 @@ def run_sweep(ctx, have_model, branch, nontriv):
     rc, so, se = ctx.harness("c17", ["-mode", "schemas", "-out", root, "-n", n, "-seed", ctx.seed, "-tier", ctx.tier,
                                      "-bindings", "-corpus", os.path.join(vf.VERIF, "corpus", "C17", "bindings.txt"),
                                      "-rootrefs", "-rootcorpus", os.path.join(vf.VERIF, "corpus", "C17", "rootrefs.txt"),
-                                     "-layouts", "-layoutcorpus", os.path.join(vf.VERIF, "corpus", "C17", "layouts.txt")])
+                                     "-layouts", "-layoutcorpus", os.path.join(vf.VERIF, "corpus", "C17", "layouts.txt"),
+                                     "-inputres", "-inputcorpus", os.path.join(vf.VERIF, "corpus", "C17", "inputres.txt"),
+                                     "-schemalocs", "-loccorpus", os.path.join(vf.VERIF, "corpus", "C17", "schemalocs.txt")])
     if rc != 0:
         raise RuntimeError("harness schemas failed: " + se[-2000:])
     projects = [l.split("\t")[1] for l in so.split("\n") if l.startswith("project\t")]
@@ -531,11 +633,16 @@ def run_sweep(ctx, have_model, branch, nontriv):
         open(os.path.join(d, "gen.err"), "w").write(se)
         return p, rc, se
 
+    import time
+    tm = {}
+    t0 = time.time()
     results = {}
     with ThreadPoolExecutor(max_workers=8) as ex:
         for p, rc, se in ex.map(gen, projects):
             results[p] = (rc, se)
     ok = [p for p in projects if results[p][0] == 0]
+    tm["sweep_generate"] = round(time.time() - t0, 1)
+    t0 = time.time()
 
     # "autobind / no models" point of the configuration space: the models generated for a project become the
     # user's hand-written package of a second project that has no `model:` section and autobinds to it
@@ -563,6 +670,8 @@ def run_sweep(ctx, have_model, branch, nontriv):
     projects += ab
     ok += [p for p in ab if results[p][0] == 0]
 
+    tm["sweep_autobind"] = round(time.time() - t0, 1)
+    t0 = time.time()
     # independent second opinion: the Go compiler on everything that was generated without error
     build_fail = {}
     if ok:
@@ -582,6 +691,8 @@ def run_sweep(ctx, have_model, branch, nontriv):
             if not build_fail:
                 raise RuntimeError("go build of generated packages failed without attributable output:\n" + (so + se)[-3000:])
 
+    tm["sweep_go_build"] = round(time.time() - t0, 1)
+    t0 = time.time()
     # declared identifiers vs the model's `emitted`
     emit_cmp = 0
     emit_idents = 0
@@ -591,7 +702,7 @@ def run_sweep(ctx, have_model, branch, nontriv):
 
     decl_out = {}
     with ThreadPoolExecutor(max_workers=8) as ex:
-        for p, (rc, so, se) in ex.map(decls, [p for p in ok if p not in build_fail and not p.endswith("ab") and not p.startswith("c17b") and not p.startswith("c17l")]):
+        for p, (rc, so, se) in ex.map(decls, [p for p in ok if p not in build_fail and not p.endswith("ab") and not p.startswith(("c17b", "c17l", "c17i", "c17s"))]):
             if rc != 0:
                 raise RuntimeError("harness decls failed for %s: %s" % (p, (so + se)[-1500:]))
             d = dict(l.split("\t", 1) for l in so.split("\n") if "\t" in l)
@@ -629,18 +740,25 @@ def run_sweep(ctx, have_model, branch, nontriv):
                                "replay": "project %s: identifiers declared by the generated files differ from Naming.emitted" % p},
                               no_failing_input=True)
 
+    tm["sweep_decls"] = round(time.time() - t0, 1)
+    t0 = time.time()
     binding = run_bindings(ctx, have_model, root, [p for p in ok if p.startswith("c17b") and p not in build_fail], hbin, branch, nontriv)
+    tm["sweep_bindings_execute"] = round(time.time() - t0, 1)
 
     layouts = run_layout_clauses(ctx, have_model, root, [p for p in ok if p.startswith("c17l") and p not in build_fail])
+
+    embeds = run_schema_embeds(ctx, have_model, root, [p for p in projects if p.startswith(("c17l", "c17s"))], branch, nontriv)
 
     classes = Counter()
     samples = []
     failed_inputs = []
     rootref = Counter()
     rootref_shapes = Counter()
-    for p in projects:
+    # directed / dimension projects first: their inputs are minimal (bin/check prints the first few violations only)
+    for p in sorted(projects, key=lambda q: q.startswith("c17r")):
         rc, se = results[p]
         branch["sweep:" + ("directed" if p.startswith("c17d") else "bindings" if p.startswith("c17b") else "root-typed-fields" if p.startswith("c17t") else "layout" if p.startswith("c17l")
+                           else "input-field-resolvers" if p.startswith("c17i") else "schema-locations" if p.startswith("c17s")
                            else "autobind-no-models" if p.endswith("ab") else "random")] += 1
         nontriv.add("p" + p)
         yml_p = read(os.path.join(root, p, "gqlgen.yml"))
@@ -666,14 +784,15 @@ def run_sweep(ctx, have_model, branch, nontriv):
         files = {f: read(os.path.join(d, f)) for f in sorted(os.listdir(d)) if f.endswith(".graphql") or f == "gqlgen.yml"}
         if p.startswith("c17t"):
             files["rootshapes.tsv"] = read(os.path.join(d, "rootshapes.tsv"))
-        if p.startswith("c17l"):
+        if p.startswith("c17i"):
+            files["inputshapes.tsv"] = read(os.path.join(d, "inputshapes.tsv"))
+            shape["input_resolvers"] = input_shape(d)
+        if p.startswith(("c17l", "c17s")):
             # the project is more than its root: schema files and pre-existing Go files live in the output directories
-            files = {}
-            for dp, dns, fns in os.walk(d):
-                for fn in sorted(fns):
-                    rel = os.path.relpath(os.path.join(dp, fn), d)
-                    if fn.endswith(".graphql") or fn in ("gqlgen.yml", "README.md", "doc.go", "layout.tsv"):
-                        files[rel] = read(os.path.join(dp, fn))
+            files = project_tree(d)
+            if shape.get("class") == "embed-pattern-leaves-the-package":
+                shape["schema_location"] = embed_location_classes(d, shape.pop("pattern", ""))
+        if p.startswith("c17l"):
             _, lsecs = read_layout(d)
             files["directories-before-generation"] = "; ".join("%s %s/ %s, package %s" % (r[0], r[1], describe_state(r[4]), "omitted" if r[2] == "-" else unhex(r[2])) for r in lsecs)
             shape["layout"] = layout_shape(d)
@@ -713,14 +832,150 @@ def run_sweep(ctx, have_model, branch, nontriv):
         if len(samples) < 4:
             samples.append({"project": p, "class": shape.get("class"), "error": head[:200]})
         if ctx.violation(rep):   # not a known finding
-            failed_inputs.append({"project": p, "function_syntax": fsyn, "input": files, "error": head})
+            failed_inputs.append({"project": p, "function_syntax": fsyn, "input": files, "error": head, "class": shape.get("class"),
+                                  "follow_schema": bool(re.search(r"^  layout: follow-schema\n  dir: ", yml_p.split("model:")[0], re.M))})
     return {"projects": len(projects), "random": len([p for p in projects if p.startswith("c17r")]),
             "generated_and_typechecked": classes["ok"], "outcome_classes": dict(classes),
             "declared_identifier_comparisons": emit_cmp, "declared_identifiers_compared": emit_idents,
             "failure_samples": samples, "bindings": binding, "layouts": layouts, "failed_inputs": failed_inputs,
+            "timings": tm, "schema_locations": embeds, "input_field_resolvers": input_resolver_stats(root, projects, results, build_fail),
             "root_typed_fields": dict(rootref, distinct_shapes_method_syntax=len([1 for (sh, f) in rootref_shapes if not f]),
                                       distinct_shapes_function_syntax=len([1 for (sh, f) in rootref_shapes if f])),
             "note": "sampled support for the first sentence of C17, not proof"}
+
+
+# ---------------------------------------------------------------- schema locations / input resolvers (helpers)
+def project_tree(d):
+    """every input file of a project whose schema files / pre-existing Go files live in sub-directories"""
+    files = {}
+    for dp, dns, fns in os.walk(d):
+        for fn in sorted(fns):
+            rel = os.path.relpath(os.path.join(dp, fn), d)
+            if fn.endswith((".graphql", ".graphqls")) or fn in ("gqlgen.yml", "README.md", "doc.go", "layout.tsv", "schemalocs.tsv"):
+                files[rel] = read(os.path.join(dp, fn))
+    return files
+
+
+def read_schemalocs(d):
+    """schemalocs.tsv -> (meta, [(location class, path relative to the project)])"""
+    meta, srcs = {}, []
+    for l in read(os.path.join(d, "schemalocs.tsv")).split("\n"):
+        f = l.split("\t")
+        if f[0] == "source" and len(f) >= 3:
+            srcs.append((f[1], f[2]))
+        elif len(f) == 2:
+            meta[f[0]] = f[1]
+    return meta, srcs
+
+
+def embed_location_classes(d, pattern):
+    """the location classes of the schema files whose path relative to the exec directory is `pattern`"""
+    meta, srcs = read_schemalocs(d)
+    ex = os.path.normpath(os.path.join(d, meta.get("exec_dir", ".")))
+    out = sorted({c for c, rel in srcs if os.path.relpath(os.path.join(d, rel), ex).replace(os.sep, "/") == pattern})
+    return out or ["?"]
+
+
+def input_shape(d):
+    meta = dict(l.split("\t", 1) for l in read(os.path.join(d, "inputshapes.tsv")).split("\n") if "\t" in l)
+    return {"exec_layout": meta.get("layout"), "flavour": meta.get("flavour"), "resolver_layout": meta.get("resolver"),
+            "name_classes": meta.get("classes", "").split(), "options": [o for o in meta.get("options", "").split(",") if o]}
+
+
+def input_resolver_stats(root, projects, results, build_fail):
+    """which input-field-resolver shapes met which exec layout x template flavour (evidence)"""
+    cells = Counter()
+    shapes = {}
+    n = 0
+    for p in projects:
+        d = os.path.join(root, p)
+        if p.startswith("c17i"):
+            n += 1
+            meta = dict(l.split("\t", 1) for l in read(os.path.join(d, "inputshapes.tsv")).split("\n") if "\t" in l)
+            key = "%s/%s" % (meta.get("layout"), meta.get("flavour"))
+            cells[key] += 1
+            shapes.setdefault(key, set()).update(meta.get("shapes", "").split())
+        elif p.startswith("c17r") and not p.endswith("ab"):
+            yml = read(os.path.join(d, "gqlgen.yml"))
+            sch = "".join(read(os.path.join(d, f)) for f in sorted(os.listdir(d)) if f.endswith(".graphql"))
+            inputs = set(re.findall(r"^(?:extend )?input (\w+)", sch, re.M))
+            marked = [t for t in re.findall(r"^  (\w+):\n    fields:", yml, re.M) if t in inputs]
+            if marked:
+                cells["random-projects-with-an-input-field-resolver"] += 1
+    return {"projects": n, "by_layout_and_flavour": dict(cells), "distinct_shapes_by_layout_and_flavour": {k: len(v) for k, v in shapes.items()}}
+
+
+def run_schema_embeds(ctx, have_model, root, projs, branch, nontriv):
+    """Projects that say where their schema files live (schemalocs.tsv: c17s*, c17l*): what the generated executor
+    embeds (`//go:embed` patterns) and what it inlines (`sources` table) against Model/EmbedPath.lean over the
+    regenerated decision, and the Spec (a pattern never leaves the package directory) on the implementation's own
+    patterns - read from the generated file even when the generator's validation rejected it."""
+    stats = {"projects": 0, "sources": 0, "embedded": 0, "inlined": 0, "divergences": 0, "spec_failures": 0,
+             "by_location_class": Counter(), "failing": []}
+    jobs = []
+    for p in projs:
+        d = os.path.join(root, p)
+        meta, srcs = read_schemalocs(d)
+        if not srcs:
+            continue
+        ex = os.path.normpath(os.path.join(d, meta.get("exec_dir", ".")))
+        gen_txt = ""
+        for fn in sorted(os.listdir(ex)) if os.path.isdir(ex) else []:
+            if fn.endswith(".go"):
+                t = read(os.path.join(ex, fn))
+                if "var sources = []*ast.Source{" in t:
+                    gen_txt = t
+        if not gen_txt:
+            continue   # generation stopped before the executor was written: reported by the sweep
+        stats["projects"] += 1
+        m = re.search(r"^\s*//go:embed(.*)$", gen_txt, re.M)
+        patterns = re.findall(r'"((?:[^"\\]|\\.)*)"', m.group(1)) if m else []
+        table = {}
+        for nm, how in re.findall(r'^\s*\{Name: "((?:[^"\\]|\\.)*)", Input: (sourceData\(|`|")', gen_txt, re.M):
+            table[nm] = how.startswith("sourceData")
+        for cls, rel in srcs:
+            jobs.append((p, cls, rel, ex, os.path.normpath(os.path.join(d, rel)), patterns, table, meta))
+    if have_model and jobs:
+        mouts = ctx.driver("c17", ["embed %s %s 0" % (j[3].encode().hex(), j[4].encode().hex()) for j in jobs])
+        allpat = sorted({(j[0], pt) for j in jobs for pt in j[5]})
+        pver = dict(zip(allpat, ctx.driver("c17", ["chkembed " + (pt.encode().hex() or "-") for _, pt in allpat]))) if allpat else {}
+        reported = set()
+        for j, mo in zip(jobs, mouts):
+            p, cls, rel, ex, src, patterns, table, meta = j
+            f = dict(x.split("=", 1) for x in mo.split(" ") if "=" in x)
+            mrel = unhex(f.get("rel", "-"))
+            stats["sources"] += 1
+            stats["by_location_class"]["%s/%s" % (meta.get("exec_layout"), cls)] += 1
+            branch["schema-location:" + cls] += 1
+            nontriv.add("loc%s/%s/%s" % (cls, meta.get("exec_layout"), meta.get("exec_dir")))
+            impl_emb = mrel in patterns
+            stats["embedded" if impl_emb else "inlined"] += 1
+            where = "project %s (go/genout/c17/%s): exec %s directory %s/, schema file %s (location class %s)" % (
+                p, p, meta.get("exec_layout"), meta.get("exec_dir"), rel, cls)
+            bad = [pt for pt in patterns if pver.get((p, pt)) != "ok" and os.path.normpath(os.path.join(ex, pt)) == src]
+            if bad:
+                stats["spec_failures"] += 1
+                stats["failing"].append({"project": p, "class": cls, "pattern": bad[0], "out": ex, "src": src})
+                if cls in reported or len(reported) >= 3:
+                    continue
+                reported.add(cls)
+                ctx.violation({"kind": "spec", "what": "go:embed pattern of the generated executor", "project": p, "pattern": bad[0],
+                               "exec_dir": meta.get("exec_dir"), "schema_file": rel, "verdict": pver.get((p, bad[0])), "input": project_tree(os.path.join(root, p)),
+                               "shape": {"stage": "embed", "class": "embed-pattern-leaves-the-package", "schema_location": [cls],
+                                         "exec_layout": meta.get("exec_layout")},
+                               "replay": where + ": the generated executor says `//go:embed \"%s\"` - a go:embed pattern cannot leave the package directory (invalid pattern syntax, the executor does not compile); Model/EmbedPath.lean: the file is %s the exec directory, relative path %s" % (
+                                   bad[0], "below" if f.get("below") == "1" else "NOT below", mrel)})
+                continue
+            if mrel not in table or (f.get("emb") == "1") != impl_emb or table.get(mrel) != impl_emb:
+                stats["divergences"] += 1
+                if stats["divergences"] <= 3:
+                    ctx.violation({"kind": "correspondence", "what": "embedded / inlined schema files differ from Model/EmbedPath.lean", "project": p,
+                                   "model": mo, "patterns": patterns, "sources_table": table,
+                                   "replay": where + ": generated executor embeds %s and lists sources %s; the model over Gen/EmbedRule.lean says relative path %s, embeddable=%s" % (
+                                       patterns, sorted(table), mrel, f.get("emb"))}, no_failing_input=True)
+    stats["by_location_class"] = dict(stats["by_location_class"])
+    stats["distinct_layout_x_location_cells"] = len(stats["by_location_class"])
+    return stats
 
 
 def run_layout_clauses(ctx, have_model, root, projs):
